@@ -1529,6 +1529,12 @@ def assist_location_checks(prop, prog, hints, src, bp, rp, sa, seen, rng, budget
         if prop == 'C01':
             try:
                 _, names = S['assist'](S['project'], src, (line, col + len(x)), fname)
+            except RecursionError:
+                # the interpreter's recursion limit on pathologically deep nests (assist / location walk the marked tree
+                # recursively: RecursionError from about 62 nested blocks on) is a totality matter of the kind C08 lists as
+                # C08-long-assignment-chain, not a statement about visibility; counted, not judged here
+                S['deep_recursion_skipped'] = S.get('deep_recursion_skipped', 0) + 1
+                continue
             except Exception as e:
                 out.append(('C01 assist raised %s at a read' % type(e).__name__, r, x, []))
                 continue
